@@ -60,6 +60,7 @@ class Family:
     clauses: set[str] | None = None    # clause names that belong to this property (None = all)
     directed: str | None = None        # corpus/<name>.json: directed scenarios beyond the emitted bounds
     eager_pass: bool = True            # thorough tier: replay a sample again with asyncio.eager_task_factory
+    uvloop_pass: bool = True           # thorough tier: replay timer-free scenarios on uvloop (cycle ticker)
 
 
 def _hist_from_counterexample(output: str) -> list[dict] | None:
@@ -82,6 +83,15 @@ def _hist_from_counterexample(output: str) -> list[dict] | None:
         if rec:
             hist.append(rec)
     return hist
+
+
+def _timer_free(scn: dict) -> bool:
+    for ops in scn.get("tasks", {}).values():
+        for op in ops:
+            if isinstance(op, list):
+                if op[0] in ("sleep", "openf", "openm", "dline") or (op[0] == "open" and op[2] < 99):
+                    return False
+    return True
 
 
 def run_family(fam: Family, tier: str, seed: int) -> int:
@@ -243,6 +253,29 @@ def run_part(fam: Family, tier: str, seed: int, rep: core.Report) -> None:
                 traces.append({"id": len(scenarios) - 1, "events": r["events"], "params": r.get("params")})
                 n_eager += 1
         rep.extra["eager_task_factory_replays"] = rep.extra.get("eager_task_factory_replays", 0) + n_eager
+
+    if fam.uvloop_pass and tier == "thorough" and scenarios:
+        # timer-free scenarios once more on uvloop with the cycle ticker (harness/uvrun.py): verdicts only
+        base_n = len([s for s in scenarios if "+eager" not in s["src"]])
+        pick = [i for i in range(base_n) if _timer_free(scenarios[i]["scn"])]
+        rng.shuffle(pick)
+        pick = pick[:3000]
+        by_kw3: dict[str, list[int]] = {}
+        for i in pick:
+            by_kw3.setdefault(json.dumps(scenarios[i]["kw"], sort_keys=True), []).append(i)
+        n_uv = 0
+        for kwj, idxs in by_kw3.items():
+            kw = dict(json.loads(kwj), uv=True)
+            res = replay.pmap(fam.fam_module, "run_scenario", [scenarios[i]["scn"] for i in idxs], **kw)
+            for i, r in zip(idxs, res):
+                if "machinery_error" in r:
+                    raise tlc.TLCError("uvloop replay failed: " + r["machinery_error"])
+                scenarios.append({"scn": scenarios[i]["scn"], "kw": kw, "fin": None,
+                                  "src": scenarios[i]["src"] + "+uvloop"})
+                results.append(r)
+                traces.append({"id": len(scenarios) - 1, "events": r["events"], "params": r.get("params")})
+                n_uv += 1
+        rep.extra["uvloop_replays"] = rep.extra.get("uvloop_replays", 0) + n_uv
 
     verdicts = tlc.validate_traces(fam.t_module, traces, tag=f"{fam.prop}-{fam.mc_module}")
     rep.traces += len(verdicts)
